@@ -103,6 +103,15 @@ def gen_case(rng, tier):
     tok = 0
     pending = 0
     flush = ["run"] if transport != "udp" else []    # TCP: connect completes and writes go out
+    if transport == "tc" and n >= 2 and rng.random() < 0.5:
+        # two queries in flight over UDP (x0, x1: nothing has failed yet, so no probe copies);
+        # the second fails (its server is demoted), THEN the first is answered with TC: the TCP
+        # retry is a fresh attempt and must go to a server with the fewest failures
+        k = rng.choice(["SERVFAIL", "REFUSED", "NOTIMP"])
+        ops += ["send 1 q1.example IN A rd", "send 2 q2.example IN A rd", "run",
+                "rsp x1 rcode=%s" % k, "proc", "run", "rsp x0 tc=1", "proc", "run"]
+        tok = 2
+        pending = 2
     for _ in range(nev):
         r = rng.random()
         if pending == 0:
